@@ -17,6 +17,10 @@ var families = map[string]func(dir string, seed int64, tier string){
 	"hash": famHash,
 	"streams": famStreams,
 	"typed": famTyped,
+	"json": famJSON,
+	"heap": famHeap,
+	"pipeline": famPipeline,
+	"conc": famConc,
 }
 
 func main() {
